@@ -20,7 +20,7 @@ from sqllineage.runner import LineageRunner  # noqa: E402
 #      desc` inside a window specification): witness family = generated window2 items in multi-relation scopes
 KNOWN = {
     "D26": lambda cid: cid.endswith("/list/non-validating") or cid == "union/explicit/non-validating",
-    "D33": lambda cid: "/window2/" in cid and cid.endswith("/non-validating") and not cid.endswith("/list/non-validating") and cid.split("/")[0] in ("join2", "join2_noalias", "join_derived", "join3", "alias_case", "cte_join_table", "cte_named_like_table"),
+    "D33": lambda cid: "/window2/" in cid and cid.endswith("/non-validating") and not cid.endswith("/list/non-validating") and cid.split("/")[0] in ("join2", "join2_noalias", "join_derived", "join3", "alias_case", "cte_join_table", "cte_named_like_table", "join2_fullqual"),
 }
 
 
